@@ -25,6 +25,14 @@ CHECKS = {
          "1-3 mutations of generated valid programs (all layouts), random token soup and byte-level corruption, for both "
          "standards, comment settings and reader kinds; anything other than a tree or FortranSyntaxError is a failure.",
          TRUST + " The time bound is represented by a deterministic count of rule constructions.", "DESIGN.md 5 C06"),
+ "C07": ("exhaustive-per-program fault injection (every statement replaced by garbage) with an exact line/text oracle",
+         "For generated multi-unit programs in free-form layouts every statement position is replaced by text no rule "
+         "matches; the FortranSyntaxError must name the last physical line of that statement and quote it.",
+         TRUST, "DESIGN.md 5 C07"),
+ "C08": ("exhaustive-per-program structural mutation (whitelisted invalidating edits) with a must-reject oracle",
+         "Every applicable opener/END deletion, duplication, surplus END, END-name change and single parenthesis edit "
+         "of generated programs must be rejected.", TRUST + " Each edit kind is argued to leave an invalid program.",
+         "DESIGN.md 5 C08"),
  "C01": ("property-based round-trip (Hypothesis-driven program generator; parse/print/parse fixpoint oracle)",
          "Random programs from a structured Fortran generator are parsed, printed, re-parsed and re-printed; "
          "trees and texts must agree. Exploration is the right level: the domain is an infinite grammar.",
@@ -32,6 +40,6 @@ CHECKS = {
 }
 NOT_APPLICABLE = {
  pid: "check not built yet (work in progress; see DESIGN.md 5)" for pid in
- [ "C07", "C08", "C09", "C10", "C11", "C13", "C14", "C15", "C16", "C17",
+ [ "C09", "C10", "C11", "C13", "C14", "C15", "C16", "C17",
   "C18", "C19", "C20"]
 }
